@@ -91,8 +91,11 @@ def gen_ops(rng, n):
             ops.append(['mutate', rng.randrange(1 << 16), rng.choice(('set', 'del')), rng.randrange(8)])
         elif r < 0.92:
             ops.append(['derive', rng.randrange(1 << 16), rng.choice(('negate', 'negative', 'substitute', 'unquantify', 'next'))])
-        elif r < 0.96:
+        elif r < 0.94:
             ops.append(['evict', rng.choice((1, 2, 5, 12, 1200))])
+        elif r < 0.97:
+            # ask an abstract class of the wrong family to build from an item's ident
+            ops.append(['wrongcat', rng.randrange(1 << 16), rng.random() < 0.5])
         else:
             # an invalid spec must be refused whatever was constructed (and cached) before
             ops.append(['invalid', rng.choice((['Constant', 0, -1], ['Constant', -1, 0], ['Constant', 9, 0], ['Variable', 0, -2],
@@ -243,6 +246,22 @@ def execute(spec, cache=None):
                     log.append(('derive', op[2], tn2))
             elif name == 'evict':
                 evict(min(op[1], spec['cache'] + 3))
+            elif name == 'wrongcat':
+                it, key, tn = pick(op[1])
+                if tn in ('Argument', 'Operator', 'Quantifier'):
+                    continue
+                ident = it.ident
+                if op[2]:
+                    evict(spec['cache'] + 3)
+                wrong = Parameter if isinstance(it, Sentence) else Sentence
+                try:
+                    got = wrong(ident)
+                except Exception as e:
+                    log.append(('wrongcat', tn, 'refused'))
+                else:
+                    if not isinstance(got, wrong):
+                        raise Fail('rebuild', 'wrong-category|%s' % tn, '%s(%r) returned a %s' % (wrong.__name__, ident, type(got).__name__))
+                    log.append(('wrongcat', tn, 'accepted'))
             elif name == 'invalid':
                 cls = dict(Constant=Constant, Variable=Variable, Atomic=Atomic, Predicate=Predicate)[op[1][0]]
                 # a valid neighbour first, so that a colliding cache entry could exist
